@@ -267,12 +267,23 @@ fn mean_case(rng: &mut Rng, idx: u64, out: &mut Out) {
     let n = product(&dims);
     let fam = *rng.pick(&[0usize, 0, 4, 5, 6]);
     let a = values(rng, n, fam);
-    let others: Vec<Vec<f32>> = (0..k).map(|_| values(rng, n, fam)).collect();
+    let mut others: Vec<Vec<f32>> = (0..k).map(|_| values(rng, n, fam)).collect();
     out.key = format!("mean rank{} k{} {:?}", rank, k, dims);
     out.cover("op_rank", format!("mean/{}", rank));
     out.cover("mean_k", k.to_string());
+    // every fifth list (k >= 2) names the same tensor OBJECT more than once (a bootstrapped list
+    // of references): the mean counts it as often as it is listed
+    let repeat = k >= 2 && (idx / 24) % 5 == 2;
+    let mut slot: Vec<usize> = (0..k).collect();
+    if repeat {
+        let from = rng.range(0, k - 2);
+        let to = rng.range(from + 1, k - 1);
+        slot[to] = from;
+        others[to] = others[from].clone();
+        out.count("mean_lists_with_a_repeated_reference", 1);
+    }
     let ts: Vec<Tensor> = others.iter().map(|o| mk(&dims, o)).collect();
-    let refs: Vec<&Tensor> = ts.iter().collect();
+    let refs: Vec<&Tensor> = slot.iter().map(|s| &ts[*s]).collect();
     let mut t = mk(&dims, &a);
     match guard(|| {
         t.mean_inplace(&refs);
